@@ -495,6 +495,63 @@ Proof.
   unfold pc_hashv. rewrite Hh, (increasing_same_set_eq _ _ Ha Hb E'). reflexivity.
 Qed.
 
+(* sorted(extent_i) : the insertion sort returns the canonical representative *)
+Lemma insert_sorted_In x y l : In y (insert_sorted x l) <-> y = x \/ In y l.
+Proof.
+  induction l as [|z l IH]; simpl; [intuition|].
+  destruct (Nat.leb x z); simpl; [intuition|]. rewrite IH. intuition.
+Qed.
+
+Lemma sort_nat_In y l : In y (sort_nat l) <-> In y l.
+Proof.
+  induction l as [|x l IH]; simpl; [tauto|].
+  unfold sort_nat in *. simpl. rewrite insert_sorted_In, IH. intuition.
+Qed.
+
+Lemma insert_sorted_increasing x l :
+  increasing l -> ~ In x l -> increasing (insert_sorted x l).
+Proof.
+  unfold increasing. intros Hs. induction Hs as [|z l Hs IH Hf]; intros Hx; simpl.
+  - constructor; constructor.
+  - destruct (Nat.leb_spec x z) as [L|L].
+    + assert (x < z) by (destruct (Nat.eq_dec x z); [subst; exfalso; apply Hx; left; reflexivity | lia]).
+      constructor; [constructor; assumption|]. constructor; [assumption|].
+      rewrite Forall_forall in *. intros y Hy. specialize (Hf y Hy). lia.
+    + constructor.
+      * apply IH. intros Hin. apply Hx. right. exact Hin.
+      * apply Forall_forall. intros y Hy. apply insert_sorted_In in Hy. destruct Hy as [E|Hy].
+        -- subst. exact L.
+        -- rewrite Forall_forall in Hf. apply Hf. exact Hy.
+Qed.
+
+Lemma sort_nat_increasing l : NoDup l -> increasing (sort_nat l).
+Proof.
+  induction 1 as [|x l Hx Hn IH]; [constructor|].
+  unfold sort_nat in *. simpl. apply insert_sorted_increasing; [exact IH|].
+  intros Hin. apply Hx. apply (sort_nat_In x l). exact Hin.
+Qed.
+
+Lemma sort_nat_same_set a b :
+  NoDup a -> NoDup b -> same_set a b -> sort_nat a = sort_nat b.
+Proof.
+  intros Na Nb E. apply increasing_same_set_eq; try (apply sort_nat_increasing; assumption).
+  intros x. rewrite !sort_nat_In. apply E.
+Qed.
+
+(* the hash is insensitive to the order of the stored extent exactly as == is *)
+Theorem pc_eq_hash_nodup (PH : list nat * option Z -> Z) a b :
+  NoDup (pc_extent_i a) -> NoDup (pc_extent_i b) ->
+  pc_eq a b = COk true -> pc_hashv PH a = pc_hashv PH b.
+Proof.
+  intros Na Nb E.
+  assert (Hh : pc_hash a = pc_hash b).
+  { unfold pc_eq, pc_guard in E. destruct (ohash_eqb (pc_hash a) (pc_hash b)) eqn:X;
+      [apply ohash_eqb_eq; exact X | discriminate]. }
+  rewrite pc_eq_is_ext_equality in E by assumption.
+  inversion E as [E']. apply same_setb_spec in E'.
+  unfold pc_hashv. rewrite Hh, (sort_nat_same_set _ _ Na Nb E'). reflexivity.
+Qed.
+
 Theorem pc_lt_is_strict a b :
   pc_hash a = pc_hash b -> NoDup (pc_extent_i a) -> NoDup (pc_extent_i b) ->
   pc_lt a b = COk (spec_lt false (pc_extent_i a) (pc_extent_i b)).
